@@ -472,6 +472,12 @@ func (ch c11) session(c *core.Ctx, env *hs.Env, s c15session, maxVer uint16, cs 
 		return
 	}
 	for i, in := range s.Steps {
+		if idx%3 == 0 && i == len(s.Steps)/2 {
+			// the client stays silent for a long while in the middle of the session (virtual time: any
+			// deadline the server has left pending on the connection passes)
+			t.conn.Pause()
+			c.Count("long_pauses_inside_tls_sessions", 1)
+		}
 		o, closed := t.step(in)
 		if i >= len(ref.Outs) || !bytes.Equal(o, ref.Outs[i]) {
 			want := ""
